@@ -9,7 +9,6 @@ from __future__ import annotations
 
 import random
 import struct
-import tracemalloc
 import typing as t
 
 from checks import common, drive, offline
@@ -18,7 +17,7 @@ from simworld import prng, world as W
 
 DC = offline.DC
 LINE_A, LINE_B = 60_000, 300
-MEM_C, MEM_D = 4_000_000, 4_000  # bytes: C + D * len(reply)
+MEM_C, MEM_D = 64 << 20, 4_000  # address-space growth (kernel high-water mark), bytes: C + D * len(reply)
 
 
 def wellformed_towers(rng) -> t.Tuple[list, t.Optional[int]]:
@@ -166,15 +165,16 @@ def run(case) -> dict:
         dc = refdc.RefDC(world, [], host=DC, epm={"raw_reply": reply})
         label = f"trunc@{len(reply)}/{len(full)}"
     world.routes.pop((DC, dc.gkdi_port), None)  # nothing listens behind the mapper: only the dialled port is observed
-    tracemalloc.start()
+    vmw = common.VmWatch()
+    vmw.__enter__()
     with world.installed():
         with common.LineBudget(LINE_A + LINE_B * (len(reply) + 500)) as lb:
             if fl == "sync":
                 out = drive.classify(lambda: dclient._sync_get_key(DC, sd, None, 1, 2, 3, auth_protocol="negotiate"))
             else:
                 out = drive.classify(lambda: drive.run_async(world, lambda: dclient._async_get_key(DC, sd, None, 1, 2, 3), random.Random(seed)))
-    _cur, peak = tracemalloc.get_traced_memory()
-    tracemalloc.stop()
+    vmw.__exit__(None, None, None)
+    peak = vmw.growth
     att = world.connect_attempts
     dialled = att[1][1] if len(att) > 1 else None
     viol = None
@@ -188,7 +188,7 @@ def run(case) -> dict:
     if out.kind in ("budget", "spin", "blocks"):
         viol = V("bounded-work", out.kind, "processing the mapper's reply did not end within the line budget")
     elif peak > MEM_C + MEM_D * len(reply):
-        viol = V("bounded-work", "memory", f"peak traced allocation {peak} bytes for a {len(reply)}-byte reply")
+        viol = V("bounded-work", "memory", f"address space grew by {peak} bytes for a {len(reply)}-byte reply")
     elif kind == "wf":
         if status != 0 or expect is None:
             probes["must_raise"] = 1
@@ -214,11 +214,11 @@ class C18(common.Check):
             "anywhere / absent, status 0 and error codes: the port dialled next (observed at the network seam) must be the TCP port of the first "
             "tower with a TCP floor; error status or no TCP floor must raise without dialling. Hostile: tower / max / actual counts and tower "
             "lengths rewritten to {2^16..2^64-1} over short bodies, floor counts 0xFFFF, floor lengths past the end, truncation at every "
-            "offset, zeros, PRNG bytes: traced lines <= 60000+300*(len+500), peak traced allocation <= 4MB+4000*len. Non-trivial = every case; "
+            "offset, zeros, PRNG bytes: traced lines <= 60000+300*(len+500), address-space growth <= 64MiB+4000*len. Non-trivial = every case; "
             "distinct = distinct (kind, seed, flavour).")
     components = {"client": "real (_sync_get_key/_async_get_key first hop, _process_ept_map_result, EptMapResult.unpack, Floor.unpack)",
                   "endpoint mapper": "Byzantine scripted peer / reference encoder (ref.rpce)", "network seam": "simulated: the dialled port is an observation",
-                  "budgets": "sys.settrace line counter (dpapi_ng frames) and tracemalloc peak"}
+                  "budgets": "sys.settrace line counter (dpapi_ng frames) and address-space high-water mark"}
     assumptions = ["budgets are affine in the reply length with constants > 20x the maximum observed on well-formed replies"]
     required_fired = ("port_expected", "must_raise", "kind_hostile", "kind_trunc", "kind_seq", "seq_error_after_success", "hostile_actual", "hostile_floor-count", "hostile_tower-len")
 
@@ -241,6 +241,17 @@ class C18(common.Check):
 
     def run_case(self, case):
         return run(case)
+
+    def warmup(self, cases):
+        seen = set()
+        for c in cases:
+            k = (c[0], c[1]) if isinstance(c, (list, tuple)) and len(c) > 1 else None
+            if k not in seen:
+                seen.add(k)
+                try:
+                    self.run_case(c)
+                except Exception:  # noqa: BLE001 - reported by the workers
+                    pass
 
     def shrink(self, case):
         if case[1] == "async":
